@@ -135,6 +135,26 @@ def check(run: Run) -> None:
             failures += 1
             run.report("C08/residue", {**c.describe(), "ops": [{"op": "parse after failed parses", "data": data.hex(), "observed": repr(again)[:300], "expected": repr(fk)[:300]}]})
 
+    # ---- every cut through the documented call form T(bytes) as well (structures that start with char members have a construction shortcut) ----
+    for text in ("struct main { char magic[4]; uint32 length; uint16 version; };", "struct main { char c; uint8 x; uint16 y; };",
+                 "struct main { char tag[2]; char sub[2]; uint8 n; };", "struct main { char only[3]; };"):
+        for compiled in (False, True):
+            cs2 = structs.load(text, endian="<", compiled=compiled)
+            T2 = cs2.main
+            full = bytes(range(0x41, 0x41 + T2.size))
+            ref = structs.py_value(T2(full), T2)
+            for k in range(0, T2.size):
+                n_cuts += 1
+                try:
+                    got = ("ok", structs.py_value(T2(full[:k]), T2))
+                except Exception as e:  # noqa: BLE001
+                    got = ("err", type(e).__name__)
+                if got[0] == "ok" and got[1] != ref:
+                    failures += 1
+                    run.report("C08/cut/call-form", {"definition": text, "cstruct_kwargs": {"endian": "<", "pointer": None}, "load_kwargs": {"compiled": compiled, "align": False},
+                               "ops": [{"op": "main(bytes) with the input cut", "data": full.hex(), "cut": k, "observed": repr(got[1])[:200], "expected": "EOFError, or the value of the complete input " + repr(ref)[:160]}]})
+                    break
+
     # ---- a pointer dereference that fails (short read or exception while the target is read) leaves the stream where it was ----
     for compiled in (False, True):
         for tgt, tsz in (("uint32", 4), ("T", 3), ("char", 5)):
